@@ -851,16 +851,22 @@ Definition demo_s1 : st := run (commit_prog demo_ixs 0 [] None) empty_st.
 Definition demo_s2 : st := run (commit_prog demo_ixs 1 [0] (Some 1)) demo_s1.
 Definition demo_autopack : list op :=
   autopack_prog demo_ixs (oixs_of true) 2 3 [0; 1] [0; 1; 2] [] (Some 2).
-Example demo_good : good demo_ixs demo_s2 /\ names demo_s2 = [0; 1].
-Proof. split; [apply goodb_spec; vm_compute; reflexivity | reflexivity]. Qed.
+Lemma demo_names : names demo_s2 = [0; 1].
+Proof. vm_compute. reflexivity. Qed.
+Example demo_good : good demo_ixs demo_s2.
+Proof. apply goodb_spec. vm_compute. reflexivity. Qed.
 Example demo_autopack_hyps :
   ~ In 2 (names demo_s2) /\ ~ In 3 (names demo_s2) /\ 2 <> 3 /\ ~ In 3 [0; 1; 2] /\
   incl [0; 1; 2] (names demo_s2 ++ [2]) /\ ok_run demo_ixs demo_s2 demo_autopack /\
-  List.length demo_autopack = 50.
+  List.length demo_autopack = 48.
 Proof.
-  repeat split; try (cbn; intuition lia).
-  - intros n Hn. cbn in *. intuition.
-  - apply ok_runb_spec. vm_compute. reflexivity.
+  rewrite demo_names.
+  split; [intros [H|[H|[]]]; discriminate|].
+  split; [intros [H|[H|[]]]; discriminate|].
+  split; [discriminate|].
+  split; [intros [H|[H|[H|[]]]]; discriminate|].
+  split; [intros n [<-|[<-|[<-|[]]]]; cbn; auto|].
+  split; [apply ok_runb_spec; vm_compute; reflexivity | vm_compute; reflexivity].
 Qed.
 Example demo_bad_order_detected :
   ok_runb demo_ixs demo_s2 (bad_pack_prog demo_ixs (oixs_of true) 2 [0; 1] [0; 1]) = false.
